@@ -348,7 +348,61 @@ func C01(run *core.Run) {
 		}(cps[lo:hi], w)
 	}
 	wg.Wait()
-	run.Set("rule", "Canon.tla holds the escape table (26 ranges partitioning the Unicode scalar values, checked by TLC) and generates every class string up to MaxLen x 5 tag shapes x 10 tamper operators with the verdict idOK /\\ sigOK; each case is instantiated with concrete code points (all members of small classes, boundaries + samples of large ones), canonical bytes are built from the exported table, hashed, really signed with BIP-340, and compared with Event.Serialize / Event.Verify; each tamper must make Verify report not-authentic. Plus one event per code point (quick: all small-class members + samples; thorough: every Unicode scalar value) in content and in a tag value. distinct_nontrivial = distinct (class string, tag shape) cases")
+	// verification is a pure function of the event: many sessions verifying large events at the same
+	// moment (the relay verifies on every connection's read loop) must all get the same verdict
+	{
+		var big []*mocrelay.Event
+		var tampered []*mocrelay.Event
+		for i := 0; i < 6; i++ {
+			var sb strings.Builder
+			for sb.Len() < 40000+i*9000 {
+				for _, rg := range tbl.ranges {
+					for _, cp := range tbl.members(rg.Name, r, 2) {
+						if utf8.ValidRune(cp) {
+							sb.WriteRune(cp)
+						}
+					}
+				}
+			}
+			ev := conc.SignRaw(authors[i%len(authors)], 1700000000+int64(i), 1, []mocrelay.Tag{{"t", fmt.Sprint("big", i)}}, sb.String())
+			big = append(big, ev)
+			t := *ev
+			t.Content = ev.Content[:len(ev.Content)-1] + "!"
+			tampered = append(tampered, &t)
+		}
+		var mu sync.Mutex
+		bad := ""
+		var wg2 sync.WaitGroup
+		reps := 12
+		if run.Thorough() {
+			reps = 120
+		}
+		for g := 0; g < 16; g++ {
+			wg2.Add(1)
+			go func(g int) {
+				defer wg2.Done()
+				for rep := 0; rep < reps; rep++ {
+					for k := range big {
+						j := (k + g) % len(big)
+						ok, err := big[j].Verify()
+						ok2, _ := tampered[j].Verify()
+						if !ok || err != nil || ok2 {
+							mu.Lock()
+							bad = fmt.Sprintf("event %d (content %d bytes): genuine reported (%v,%v), tampered reported %v", j, len(big[j].Content), ok, err, ok2)
+							mu.Unlock()
+							return
+						}
+					}
+				}
+			}(g)
+		}
+		wg2.Wait()
+		run.Add("concurrent_verifications", int64(16*reps*len(big)*2))
+		if bad != "" {
+			run.Violate("verify-concurrent", "16 goroutines verifying large events concurrently: "+bad, map[string]any{"detail": bad})
+		}
+	}
+	run.Set("rule", "(16 concurrent verifiers over large events must all agree with the sequential verdict.) Canon.tla holds the escape table (26 ranges partitioning the Unicode scalar values, checked by TLC) and generates every class string up to MaxLen x 5 tag shapes x 10 tamper operators with the verdict idOK /\\ sigOK; each case is instantiated with concrete code points (all members of small classes, boundaries + samples of large ones), canonical bytes are built from the exported table, hashed, really signed with BIP-340, and compared with Event.Serialize / Event.Verify; each tamper must make Verify report not-authentic. Plus one event per code point (quick: all small-class members + samples; thorough: every Unicode scalar value) in content and in a tag value. distinct_nontrivial = distinct (class string, tag shape) cases")
 	run.Set("evaluations", run.Get("events_checked")+run.Get("tampers_checked"))
 	run.Set("distinct_nontrivial", distinct.Len())
 	run.Assume = append(run.Assume, "SHA-256 and BIP-340 (btcec/schnorr) are trusted oracles", "only well-formed UTF-8 strings are generated")
